@@ -280,7 +280,7 @@ def gen_codec(rng, n):
 def generate(ctx):
     rng = ctx.rng
     cases = [gen_codec(rng, ctx.n(600, 6000))]
-    for u in range(ctx.n(110, 1200)):
+    for u in range(ctx.n(90, 1200)):
         cases.append(gen_module(rng, u))
     for i, trig in enumerate(["FILE", "pack", "biglen", "bigconst"] * ctx.n(1, 4)):
         cases.append(gen_module(rng, 100000 + i, trigger=trig))
@@ -379,49 +379,71 @@ def py_decode_int(o):
 
 PRELUDE = """
 From Cffi Require Import C11.Proofs.
-Definition res_eqb (a b : result (list Z)) : bool :=
-  match a, b with
-  | Ok x, Ok y => list_eqb Z.eqb x y
-  | Err OverflowError, Err OverflowError | Err VerificationError, Err VerificationError => true
-  | _, _ => false
-  end.
-Definition run_op (x : Z * (Z * Z)) : result (list Z) :=
+(* one entry point for every model evaluation of this check: (tag, data) -> list Z *)
+Definition enc_res (r : result (list Z)) : list Z :=
+  match r with Ok x => 0 :: x | Err OverflowError => [1] | Err VerificationError => [2] end.
+Definition c11_eval (x : Z * list Z) : list Z :=
+  let d := snd x in
+  let a := nth 0 d 0 in let b := nth 1 d 0 in
   match fst x with
-  | 0 => as_python_bytes (Op (fst (snd x)) (snd (snd x)))
-  | 1 => as_python_bytes (OpLen (fst (snd x)))
-  | 2 => as_python_bytes OpExpr
-  | _ => Ok (format_four_bytes (fst (snd x)))
+  | 0 => enc_res (as_python_bytes (Op a b))
+  | 1 => enc_res (as_python_bytes (OpLen a))
+  | 2 => enc_res (as_python_bytes OpExpr)
+  | 3 => enc_res (Ok (format_four_bytes a))
+  | 4 => [cdl_4bytes d; fst (decode_op d); snd (decode_op d)]
+  | 5 => snd (decode_typename (as_c d))
+  | 6 => let '(ti, fl, nm) := decode_struct (as_c d) in fl :: nm
+  | 7 => let '(ti, pr, nm, en) := decode_enum (as_c d) in nm ++ [-1] ++ en
+  | _ => [decode_int 64 a]
   end.
-Definition dec3 (bs : list Z) : Z * (Z * Z) := (cdl_4bytes bs, decode_op bs).
-Definition dec3_eqb (a b : Z * (Z * Z)) : bool := (fst a =? fst b) && pair_z_eqb (snd a) (snd b).
-Definition rec_eqb (a b : list Z * list Z) : bool := list_eqb Z.eqb (fst a) (fst b) && list_eqb Z.eqb (snd a) (snd b).
 """
+
+
+class CoqBatch:
+    """all model evaluations of one run go through a single coqc invocation (sharded)"""
+
+    def __init__(self):
+        self.cases, self.on_bad = [], []
+
+    def add(self, tag, data, expected, on_bad):
+        self.cases.append(("(%s, %s)" % (cz(tag), zl(data)), zl(expected)))
+        self.on_bad.append(on_bad)
+
+    def run(self, ctx):
+        if not self.cases:
+            return
+        bad, outs, err = vlib.coq_mismatches(["C11.Model", "C11.Gen"], "c11_eval", "list_eqb Z.eqb", self.cases,
+                                             prelude=PRELUDE, shard=700)
+        if err:
+            ctx.obligation_broken("C11 model evaluation", err)
+        for i in bad:
+            self.on_bad[i](outs.get(i), self.cases[i][1])
 
 
 def zl(xs):
     return "[" + "; ".join(cz(int(x)) for x in xs) + "]"
 
 
-def eval_codec(ctx, case, r, exe):
+def eval_codec(ctx, case, r, exe, batch):
     enc = r["codec"]
     # (1) regenerated as_python_bytes / format_four_bytes vs the running Python code
-    coq1 = []
     for item, e in zip(case["ops"], enc):
         ctx.count()
         tag = {"op": 0, "len": 1, "expr": 2, "ffb": 3}[item[0]]
-        a, b = (item[1], item[2]) if item[0] == "op" else ((item[1], 0) if item[0] != "expr" else (0, 0))
-        exp = ("(Ok %s)" % zl(e[1])) if e[0] == "ok" else "(Err %s)" % (
-            e[1] if e[1] in ("OverflowError", "VerificationError") else "VerificationError")
-        if e[0] == "err" and e[1] not in ("OverflowError", "VerificationError"):
+        data = [int(item[1]), int(item[2])] if item[0] == "op" else ([int(item[1])] if item[0] != "expr" else [])
+        if e[0] == "ok":
+            exp = [0] + list(e[1])
+        elif e[1] == "OverflowError":
+            exp = [1]
+        elif e[1] == "VerificationError":
+            exp = [2]
+        else:
             ctx.violation(dict(kind="codec", ops=[item], raw=[]), "as_python_bytes raised %s" % e[1])
-        coq1.append((cpair(cz(tag), cpair(cz(int(a)), cz(int(b)))), exp))
-    bad, outs, err = vlib.coq_mismatches(["C11.Model", "C11.Gen"], "run_op", "res_eqb", coq1, prelude=PRELUDE, shard=800)
-    if err:
-        ctx.obligation_broken("C11 model evaluation", err)
-    for i in bad:
-        ctx.mismatch(dict(kind="codec", ops=[case["ops"][i]], raw=[]),
-                     "regenerated as_python_bytes/format_four_bytes gives %s, the Python code %s" % (outs.get(i), coq1[i][1]),
-                     "C11/Gen.v (py2coq translation) vs cffi_opcode.py")
+            continue
+        batch.add(tag, data, exp, lambda got, want, item=item: ctx.mismatch(
+            dict(kind="codec", ops=[item], raw=[]),
+            "regenerated as_python_bytes/format_four_bytes gives %s, the Python code %s (0::bytes | [1]=OverflowError | "
+            "[2]=VerificationError)" % (got, want), "C11/Gen.v (py2coq translation) vs cffi_opcode.py"))
     # (2) the real C decoder on the real encoder's output: the round-trip predicate on the implementation
     hexes, owners = [], []
     for item, e in zip(case["ops"], enc):
@@ -445,29 +467,20 @@ def eval_codec(ctx, case, r, exe):
             if d[0] != int(item[1]):
                 ctx.violation(dict(kind="codec", ops=[item], raw=[]), "array length %s is decoded as %d" % (item[1], d[0]))
     # (3) hand model of the decoder vs the real C functions, on encoder outputs and raw patterns
-    coq3 = [("[%s]" % "; ".join(cz(int(h[i:i + 2], 16)) for i in (0, 2, 4, 6)),
-             cpair(cz(d[0]), cpair(cz(d[1]), cz(d[2])))) for h, d in zip(hexes + case["raw"], dec)]
-    bad, outs, err = vlib.coq_mismatches(["C11.Model", "C11.Gen"], "dec3", "dec3_eqb", coq3, prelude=PRELUDE, shard=800)
-    if err:
-        ctx.obligation_broken("C11 model evaluation", err)
-    for i in bad:
-        ctx.mismatch(dict(kind="codec", ops=[], raw=[(hexes + case["raw"])[i]]),
-                     "model (cdl_4bytes, (GETOP, GETARG)) = %s, C code %s" % (outs.get(i), coq3[i][1]),
-                     "C11/Model.v cdl_4bytes/getop/getarg vs cdlopen.c + parse_c_type.h")
+    for h, d in zip(hexes + case["raw"], dec):
+        batch.add(4, [int(h[i:i + 2], 16) for i in (0, 2, 4, 6)], list(d), lambda got, want, h=h: ctx.mismatch(
+            dict(kind="codec", ops=[], raw=[h]), "model [cdl_4bytes; GETOP; GETARG] = %s, C code %s" % (got, want),
+            "C11/Model.v cdl_4bytes/getop/getarg vs cdlopen.c + parse_c_type.h"))
     ctx.sample(dict(kind="codec", ops=case["ops"][:6], raw=case["raw"][:4]))
 
 
-DEC_REC = """
-Definition dec_rec (x : Z * list Z) : list Z * list Z :=
-  match fst x with
-  | 0 => (snd (decode_typename (as_c (snd x))), [])
-  | 1 => let '(ti, fl, nm) := decode_struct (as_c (snd x)) in (nm, [fl])
-  | _ => let '(ti, pr, nm, en) := decode_enum (as_c (snd x)) in (nm, en)
-  end.
-"""
+def rec_bad(ctx, c, kind, x):
+    return lambda got, want: ctx.mismatch(
+        c, "%s record %r: model decodes %s, reference slicing %s" % (kind, bytes(x), got, want),
+        "C11/Model.v decode_typename/decode_struct/decode_enum vs the generated records (ffiobj_init, cdlopen.c)")
 
 
-def eval_module(ctx, c, r, coq_rec, meta_rec, coq_int, meta_int):
+def eval_module(ctx, c, r, batch):
     st = r["status"]
     ctx.count(max(1, r.get("checked", 0)))
     if "inline_error" in st:
@@ -500,15 +513,13 @@ def eval_module(ctx, c, r, coq_rec, meta_rec, coq_int, meta_int):
     for x in recs.get("_typenames", []):
         nm = bytes(x[4:])
         ref_td.append(nm.decode())
-        coq_rec.append(("(0, %s)" % zl(x), cpair(zl(nm), "[]")))
-        meta_rec.append((c, "typename", x))
+        batch.add(5, x, list(nm), rec_bad(ctx, c, "typename", x))
     for x in recs.get("_struct_unions", []):
         head = x[0]
         nm = bytes(head[8:])
         flags = int.from_bytes(bytes(head[4:8]), "big")
         (ref_un if flags & 1 else ref_st).append(nm.decode())
-        coq_rec.append(("(1, %s)" % zl(head), cpair(zl(nm), zl([flags]))))
-        meta_rec.append((c, "struct", head))
+        batch.add(6, head, [flags] + list(nm), rec_bad(ctx, c, "struct (flags :: name)", head))
     vis = lambda l: sorted(n for n in l if not n.startswith("$"))
     if (vis(ref_td), vis(ref_st), vis(ref_un)) != (vis(td), vis(st_), vis(un)):
         ctx.mismatch(c, "records of the generated module name %r, the imported module lists %r" % (
@@ -523,15 +534,18 @@ def eval_module(ctx, c, r, coq_rec, meta_rec, coq_int, meta_int):
         if ens is None:
             continue        # an enum that no declared name reaches (nothing observable to compare with)
         # relements is filled from the last enumerator to the first (b_new_enum_type): declared order = reversed
-        coq_rec.append(("(2, %s)" % zl(x), cpair(zl(nm.encode()), zl(",".join(reversed(ens)).encode()))))
-        meta_rec.append((c, "enum", x))
+        batch.add(7, x, list(nm.encode()) + [-1] + list(",".join(reversed(ens)).encode()),
+                  rec_bad(ctx, c, "enum (name, -1, enumerators)", x))
     # ---- model of ffiobj_init/realize_global_int on the emitted Python int vs the value the module returns
     for n, v1, v2, v3 in r.get("consts", []):
         try:
-            coq_int.append((cz(int(v1)), cz(int(v2))))
-            meta_int.append((c, n))
+            a1, a2 = int(v1), int(v2)
         except ValueError:
-            pass
+            continue
+        ctx.extra["constants_compared"] = ctx.extra.get("constants_compared", 0) + 1
+        batch.add(8, [a1], [a2], lambda got, want, c=c, n=n, a1=a1: ctx.mismatch(
+            c, "constant %s: model decode_int gives %s for the emitted value %d, the module returns %s" % (n, got, a1, want),
+            "C11/Model.v decode_int vs ffiobj_init + realize_global_int"))
 
 
 def evaluate(ctx, cases):
@@ -551,36 +565,16 @@ def evaluate(ctx, cases):
             else:
                 results.append(o1["results"][0])
         out = dict(results=results)
-    coq_rec, meta_rec, coq_int, meta_int = [], [], [], []
+    batch = CoqBatch()
     for c, r in zip(cases, out["results"]):
         if "worker_error" in r:
             ctx.violation(c, "worker error: " + r["worker_error"])
         elif c["kind"] == "codec":
-            eval_codec(ctx, c, r, exe)
+            eval_codec(ctx, c, r, exe, batch)
         else:
-            eval_module(ctx, c, r, coq_rec, meta_rec, coq_int, meta_int)
-    if coq_rec:
-        bad, outs, err = vlib.coq_mismatches(["C11.Model", "C11.Gen"], "dec_rec", "rec_eqb", coq_rec,
-                                             prelude=PRELUDE + DEC_REC, shard=1000)
-        if err:
-            ctx.obligation_broken("C11 model evaluation", err)
-        for i in bad:
-            c, kind, x = meta_rec[i]
-            ctx.mismatch(c, "%s record %r: model decodes %s, the imported module shows %s" % (
-                kind, bytes(x), outs.get(i), coq_rec[i][1]),
-                "C11/Model.v decode_typename/decode_struct/decode_enum vs ffiobj_init (cdlopen.c)")
-    if coq_int:
-        bad, outs, err = vlib.coq_mismatches(["C11.Model", "C11.Gen"], "decode_int 64", "Z.eqb", coq_int,
-                                             prelude=PRELUDE, shard=2000)
-        if err:
-            ctx.obligation_broken("C11 model evaluation", err)
-        for i in bad:
-            c, n = meta_int[i]
-            ctx.mismatch(c, "constant %s: model decode_int gives %s for the emitted value %s, the module returns %s" % (
-                n, outs.get(i), coq_int[i][0], coq_int[i][1]),
-                "C11/Model.v decode_int vs ffiobj_init + realize_global_int")
-    ctx.extra["records_compared"] = len(coq_rec)
-    ctx.extra["constants_compared"] = len(coq_int)
+            eval_module(ctx, c, r, batch)
+    ctx.extra["model_evaluations"] = len(batch.cases)
+    batch.run(ctx)
     for c in [c for c in cases if c["kind"] == "module"][:3]:
         ctx.sample(dict(kind="module", cdef=c["cdef"][:600], opts=c["opts"]))
 
